@@ -92,7 +92,7 @@ func CheckCIDRLookup(d *Dump, ip net.IP, res *Entry) []Failure {
 	}
 	sfx := ""
 	if class != "" {
-		sfx = ":" + class
+		sfx = "-" + class
 	}
 	if len(cands) == 0 {
 		if res != nil {
